@@ -1,5 +1,6 @@
 pub mod exec;
 pub mod gen;
+pub mod inputs;
 pub mod names;
 pub mod options;
 pub mod query;
